@@ -1,7 +1,7 @@
 (* C06 -- property theorems only: statement + exact + Print Assumptions. *)
 From Coq Require Import List ZArith Bool String.
 From LJT Require Import model.Transform model.TransformSpec
-  proofs.TransformProofs proofs.TransformPlane proofs.TransformImage proofs.TransformGeneral
+  proofs.TransformProofs proofs.TransformPlane proofs.TransformImage proofs.TransformGeneral proofs.TransformPerfect
   gen.GenXform proofs.TransformGenFacts.
 Import ListNotations.
 Local Open Scope Z_scope.
@@ -82,6 +82,7 @@ Theorem C06_transform_blocks : forall im o im',
   exists p, request_workspace im o = inr p /\
     i_w im' = p_ow p /\ i_h im' = p_oh p /\
     Forall2 (fun c c' =>
+       (c_hs c', c_vs c') = dst_samp (p_nc p) (transposes (xo_op o)) c /\
        c_wb c' = cdiv (p_ow p * c_hs c') (p_imw p) /\ c_hb c' = cdiv (p_oh p * c_vs c') (p_imh p) /\
        forall x y, 0 <= x < c_wb c' -> 0 <= y < c_hb c' ->
          let '(g, sx, sy) := pos_of o im p c' x y in
@@ -131,6 +132,47 @@ Theorem C06_compose_whole : forall op1 op2 im Mw Mh,
                   image_rel (op_mul op2 op1) im im2.
 Proof. exact transform_compose_whole. Qed.
 Print Assumptions C06_compose_whole.
+
+(* (3d) ALL GEOMETRIES.  Any regular image (size-consistent, partial iMCUs allowed), operation
+   flagged perfect: accepted iff no partial iMCU lies on a mirrored source edge; then every component
+   meets the whole-plane specification, and the inverse operation flagged perfect is accepted too
+   and restores dimensions, factors, tables and every block *)
+Theorem C06_perfect_request_iff : forall op im,
+  regular_image im -> (perfect_for op im <-> exists im', transform im (perfect_opts op) = inr im').
+Proof. exact perfect_request_iff. Qed.
+Print Assumptions C06_perfect_request_iff.
+
+Theorem C06_transform_perfect_regular : forall op im,
+  regular_image im -> perfect_for op im ->
+  exists im', transform im (perfect_opts op) = inr im' /\ image_rel op im im' /\
+              regular_image im' /\ perfect_for (op_inv op) im'.
+Proof. exact transform_perfect_regular. Qed.
+Print Assumptions C06_transform_perfect_regular.
+
+Theorem C06_perfect_round_trip : forall op im,
+  regular_image im -> perfect_for op im ->
+  exists im1 im2, transform im (perfect_opts op) = inr im1 /\
+                  transform im1 (perfect_opts (op_inv op)) = inr im2 /\ image_same im im2.
+Proof. exact perfect_round_trip. Qed.
+Print Assumptions C06_perfect_round_trip.
+
+(* (3e) TRIM, non-perfect geometries: with at least one whole iMCU along each mirrored edge the
+   request is accepted and the result is the fully mirrored transform of the source restricted to
+   its whole iMCUs on the mirrored edges: no unmirrored edge block remains, dropped blocks are absent *)
+Theorem C06_transform_trim : forall op im,
+  regular_image im ->
+  (mirrors_src_x op = true -> max_hs (i_comps im) * 8 <= i_w im) ->
+  (mirrors_src_y op = true -> max_vs (i_comps im) * 8 <= i_h im) ->
+  exists im', transform im (trim_opts op) = inr im' /\
+    i_w im' = tw op (src_wT op im) (src_hT op im) /\ i_h im' = th op (src_wT op im) (src_hT op im) /\
+    Forall2 (fun c c' =>
+      c_hs c' = tw op (c_hs c) (c_vs c) /\ c_vs c' = th op (c_hs c) (c_vs c) /\
+      c_wb c' = tw op (src_wbT op im c) (src_hbT op im c) /\ c_hb c' = th op (src_wbT op im c) (src_hbT op im c) /\
+      forall x y, 0 <= x < c_wb c' -> 0 <= y < c_hb c' ->
+        c_blk c' x y = full_plane op (src_wbT op im c) (src_hbT op im c) (c_blk c) x y)
+      (i_comps im) (i_comps im').
+Proof. exact transform_trim. Qed.
+Print Assumptions C06_transform_trim.
 
 (* (4) jtransform_perfect_transform is true iff no partial iMCU lies on a mirrored source
    edge; a request flagged perfect fails exactly then *)
@@ -229,14 +271,39 @@ Print Assumptions C06_model_trim_table.
    untrimmed region keeps its origin and has exactly the requested size; and the grid TurboJPEG
    uses (tjMCUWidth/Height of getDstSubsamp, generated from the current source) is that grid *)
 Theorem C06_tj_crop_alignment : forall im n t p,
-  1 <= i_w im -> 1 <= i_h im -> opts_nonneg (tj_xopts n t) ->
   request_workspace im (tj_xopts n t) = inr p -> t_crop t = true ->
-  let imw := if p_nc p =? 1 then 8 else tw (t_op t) (max_hs (i_comps im)) (max_vs (i_comps im)) * 8 in
-  let imh := if p_nc p =? 1 then 8 else th (t_op t) (max_hs (i_comps im)) (max_vs (i_comps im)) * 8 in
-  p_imw p = imw /\ p_imh p = imh /\
-  (tj_precheck im n t = None <-> (t_x t mod imw = 0 /\ t_y t mod imh = 0)).
+  let d := get_dst_subsamp (get_subsamp im) (t_gray t) (t_op t) in
+  (tj_precheck im n t = None <-> (d <> -1 /\ t_x t mod tj_mcu_w d = 0 /\ t_y t mod tj_mcu_h d = 0)).
 Proof. exact tj_crop_alignment. Qed.
 Print Assumptions C06_tj_crop_alignment.
+
+(* for the seven TJSAMP layouts that grid is the destination iMCU grid (getSubsamp/getDstSubsamp modelled) *)
+Theorem C06_tj_crop_alignment_std : forall im n t p,
+  In (i_cs im, layout_of im) std_layouts ->
+  request_workspace im (tj_xopts n t) = inr p -> t_crop t = true ->
+  (tj_precheck im n t = None <-> (t_x t mod p_imw p = 0 /\ t_y t mod p_imh p = 0)).
+Proof. exact tj_crop_alignment_std. Qed.
+Print Assumptions C06_tj_crop_alignment_std.
+
+(* FINDING: for non-standard layouts that getSubsamp() classifies (here 2x1,2x1,2x1 -> 4:4:4) the grid
+   is NOT the image's iMCU grid: an origin off the real grid is accepted, result wider than requested *)
+Theorem C06_tj_crop_alignment_nonstd_refuted :
+  exists im n t p, request_workspace im (tj_xopts n t) = inr p /\ t_crop t = true /\
+                   tj_precheck im n t = None /\ t_x t mod p_imw p <> 0 /\ p_ow p <> t_w t.
+Proof. exact tj_crop_alignment_nonstd_refuted. Qed.
+Print Assumptions C06_tj_crop_alignment_nonstd_refuted.
+
+Theorem C06_source_tj_tables :
+  tj_samp_mcu = map (fun e => snd (fst e)) gen_tjsamp /\
+  forallb (fun i => let d := get_dst_subsamp (Z.of_nat i) false XTranspose in
+                    let lum := fun k => fst (fst (nth k gen_tjsamp ((0, 0), (0, 0), (0, 0)))) in
+                    let dst := snd (nth i gen_tjsamp ((0, 0), (0, 0), (0, 0))) in
+                    (fst (lum (Z.to_nat d)) =? fst dst) && (snd (lum (Z.to_nat d)) =? snd dst) &&
+                    (get_dst_subsamp (Z.of_nat i) false XRot180 =? Z.of_nat i) &&
+                    (get_dst_subsamp (Z.of_nat i) true XRot90 =? 3))
+          (seq 0 7) = true.
+Proof. exact tj_tables_from_source. Qed.
+Print Assumptions C06_source_tj_tables.
 
 Theorem C06_tj_crop_size : forall im n t p,
   request_workspace im (tj_xopts n t) = inr p -> t_crop t = true -> t_trim t = false ->
@@ -286,3 +353,11 @@ Proof. exact ex_geom. Qed.
 (* three components on slot 0, slot redefined after the first one was latched: refused for every op *)
 Example C06_ex_slot_reuse : forall op, transform ex_image3 (plain op) = inl EQuantReuse.
 Proof. exact ex_image3_refused. Qed.
+
+(* 48 x 29 4:2:0 (partial bottom iMCU row): regular, perfect for rot270 and hflip, not for rot90,
+   and the trim hypothesis of rot90 holds *)
+Example C06_ex_partial_geometry :
+  regular_image ex_image4 /\ perfect_for XRot270 ex_image4 /\ perfect_for XFlipH ex_image4 /\
+  ~ perfect_for XRot90 ex_image4 /\
+  (mirrors_src_y XRot90 = true -> max_vs (i_comps ex_image4) * 8 <= i_h ex_image4).
+Proof. exact ex_image4_regular. Qed.
